@@ -467,8 +467,8 @@ func (w *vWorld) exec(raw json.RawMessage, a vAct, idx int) {
 		return
 	case "PassBegin":
 		w.reload = false
-		w.observe(idx, raw, a.Op, "", false)
 		w.inPass = true
+		w.observe(idx, raw, a.Op, "", false)
 		crashed := w.runGuarded(func() {
 			_, err := w.r.Reconcile(context.Background(), ctrl.Request{NamespacedName: types.NamespacedName{Namespace: "metallbreload", Name: "reload"}})
 			if err != nil {
